@@ -314,6 +314,7 @@ def run_judge(
     verdicts = []
     stats = {'generated': 0, 'distinct': 0, 'chunks': len(chunks), 'tlc_wall_s': 0.0}
     notes = []
+    drift = []
     t0 = time.time()
     with concurrent.futures.ThreadPoolExecutor(max_workers=jobs) as ex:
         for path, rc, out, err, dt in ex.map(_judge_chunk, jobs_args):
@@ -331,10 +332,13 @@ def run_judge(
             for v in printed_values(out):
                 if isinstance(v, list) and v and v[0] == 'VERDICT':
                     verdicts.append((v[1], v[2], sorted(v[3])))
+                elif isinstance(v, list) and v and v[0] == 'DRIFT':
+                    drift.append((v[1], v[2], sorted(v[3])))
                 elif isinstance(v, list) and v and v[0] == 'NOTE':
                     notes.append(v[1:])
     stats['tlc_wall_s'] = time.time() - t0
     stats['notes'] = notes
+    stats['drift'] = drift
     if not keep:
         cleanup(wd)
     return verdicts, stats
